@@ -576,6 +576,17 @@ def m_option_unwrap_or_else(I, fr, a, ck):
     return res
 
 
+def m_result_unwrap_or_else(I, fr, a, ck):
+    v, f = a
+    res = Outs()
+    if 1 in v.alts and not g_false(v.alts[1][0]):
+        for o in call_closure(I, fr, f, [v.alts[1][1][0]]):
+            res.append(Outcome(o.kind, gand(v.alts[1][0], o.guard), o.value, o.mem, o.msg))
+    if 0 in v.alts and not g_false(v.alts[0][0]):
+        res.append(ret(v.alts[0][1][0], v.alts[0][0]))
+    return res
+
+
 def m_option_ok_or_else(I, fr, a, ck):
     v, f = a
     alts = {}
@@ -644,9 +655,48 @@ def _display(v):
     return None
 
 
+def text_concat(parts):
+    """TextAlts of the concatenation of TextAlts / python str parts"""
+    alts = [(True, ())]
+    for x in parts:
+        xs = TextAlts.of(x).alts
+        alts = [(gand(g, g2), p + p2) for g, p in alts for g2, p2 in xs if not g_false(gand(g, g2))]
+    return TextAlts(alts)
+
+
+def display_prop(I, v):
+    """propositional symbolic text of a Display / Debug / Pointer argument (format_symbolic == 'prop'), or None"""
+    if isinstance(v, SRef):
+        return display_prop(I, v.val)
+    if isinstance(v, (RcV, BoxV)):
+        return display_prop(I, v.inner)
+    if isinstance(v, AddrV):
+        return TextAlts([(True, (('addr', v),))])
+    if isinstance(v, Str):
+        return TextAlts.of(v.s)
+    if isinstance(v, bool):
+        return TextAlts.of('true' if v else 'false')
+    if isinstance(v, int):
+        return TextAlts.of(str(v))
+    if isinstance(v, OrdId):
+        v = v.bv()
+    if isinstance(v, z3.BitVecRef):
+        return TextAlts([(True, (('int', v),))])
+    if isinstance(v, Adt) and v.ty == 'NamedSymbol' and len(v.alts) == 1:
+        return display_prop(I, v.alts[0][1][0])
+    if isinstance(v, Adt) and v.ty in I.defs.enums and all(len(fs) == 0 for g, fs in v.alts.values()):
+        # derived Debug of a field-less enum: the variant's name
+        return TextAlts([(g, (I.defs.enums[v.ty][idx],)) for idx, (g, fs) in v.alts.items()])
+    return None
+
+
 def _display_sym(v):
     if isinstance(v, SRef):
         return _display_sym(v.val)
+    if isinstance(v, AddrV):
+        return ('addr', v)
+    if isinstance(v, Str) and isinstance(v.s, TextAlts):
+        return v.s
     if isinstance(v, (RcV, BoxV)):
         return _display_sym(v.inner)
     if isinstance(v, Str) and not isinstance(v.s, str):
@@ -676,7 +726,9 @@ def m_format(I, fr, a, ck):
                         ok = False
                         break
                     d = _display(vals[k])
-                    if d is None and I.cfg.get('format_symbolic'):
+                    if d is None and I.cfg.get('format_symbolic') == 'prop':
+                        d = display_prop(I, vals[k])
+                    elif d is None and I.cfg.get('format_symbolic'):
                         d = _display_sym(vals[k])
                     if d is None:
                         ok = False
@@ -692,6 +744,9 @@ def m_format(I, fr, a, ck):
                     break
             if ok and all(isinstance(x, str) for x in out):
                 return Str(''.join(out))
+            if ok and any(isinstance(x, (tuple, TextAlts)) for x in out):
+                # pointer / symbolic-text arguments: propositional symbolic text
+                return Str(text_concat([x if isinstance(x, (str, TextAlts)) else TextAlts([(True, (x,))]) for x in out]))
             if ok:
                 # some argument is a symbolic string: the rendering is the concatenation term
                 parts = [x for x in out if not (isinstance(x, str) and x == '')]
@@ -1164,6 +1219,20 @@ def m_collect(I, fr, a, ck):
             res.append(Outcome('panic', g, None, None, acc.msg))
         else:
             res.append(Outcome('ret', g, Seq(acc), mem))
+    return res
+
+
+def m_itertools_join(I, fr, a, ck):
+    """Itertools::join(sep): Display of every item, separated"""
+    it = to_iter(I, fr, I.peel_all(a[0], fr) if isinstance(a[0], (SRef, MRef)) else a[0])
+    sep = I.peel_all(a[1], fr)
+    res = Outs()
+    for g, acc, mem in drain(I, fr, it):
+        if isinstance(acc, Outcome):
+            res.append(Outcome('panic', g, None, None, acc.msg))
+            continue
+        fr2 = fr
+        res.append(Outcome('ret', g, m_slice_join(I, fr2, [Seq([I.peel_all(x, fr) if isinstance(x, (SRef, MRef)) else x for x in acc]), sep], ck), mem))
     return res
 
 
@@ -2189,6 +2258,13 @@ def m_slice_join(I, fr, a, ck):
     parts = []
     for x in s.items:
         if not isinstance(x, Str) or not isinstance(x.s, str):
+            if I.cfg.get('format_symbolic') == 'prop' and all(isinstance(y, Str) for y in s.items) and isinstance(sep.s, str):
+                ps = []
+                for i, y in enumerate(s.items):
+                    if i:
+                        ps.append(sep.s)
+                    ps.append(TextAlts.of(y.s))
+                return Str(text_concat(ps))
             raise EngineError('join over non-concrete strings')
         parts.append(x.s)
     return Str(sep.s.join(parts))
@@ -2198,6 +2274,7 @@ def register_ints(M):
     A = M.add
     A('String', 'Add', 'add', m_string_add)
     A('slice', None, 'join', m_slice_join)
+    A(None, 'Itertools', 'join', m_itertools_join)
     A('slice', None, 'concat', m_slice_join)
     for t in ('usize', 'u64', 'i64', 'isize', 'u32', 'i32', 'u8', 'u16'):
         for m in ('max', 'min', 'clamp'):
@@ -2221,6 +2298,7 @@ def register_ints(M):
     A(None, 'TryFrom', 'try_from', m_try_from)
     A(None, 'TryInto', 'try_into', m_try_from)
     A('Result', None, 'unwrap_or', m_result_unwrap_or)
+    A('Result', None, 'unwrap_or_else', m_result_unwrap_or_else)
     A('Result', None, 'unwrap_or_default', m_result_unwrap_or)
     for m in ('saturating_add', 'saturating_sub', 'checked_add', 'checked_sub', 'wrapping_add', 'wrapping_sub', 'overflowing_add',
               'overflowing_sub', 'min', 'max', 'abs'):
@@ -2543,6 +2621,9 @@ def register_batch3(M):
     A = M.add
     A('slice', None, 'binary_search', m_binary_search)
     A('Rc', 'Default', 'default', m_rc_default)
+    # Cow<'_, [T]> is kept transparent: an owned Vec / a borrowed slice is the sequence itself
+    A('Vec', 'Into', 'into', lambda I, fr, a, ck: a[0])
+    A('Cow', 'Deref', 'deref', m_vec_deref)
     A('mem', None, 'swap', m_mem_swap)
     A('mem', None, 'replace', m_mem_replace)
     A('mem', None, 'take', m_mem_take)
